@@ -129,7 +129,7 @@ pub open spec fn params_post(possible: Seq<FunctionArg>, act: Seq<(Position, Exp
 //@@ REPLACE
 //@@< possible.iter().zip_longest(args.iter())
 //@@> verif_zip_longest(possible, &args)
-//@@ REPLACE
+//@@ REPLACE pin=5d0d4b0424b5
 //@@< fun_arg.ty.clone().ok_or_else($$)
 //@@> verif_ok_or_err(fun_arg.ty.clone(), *pos) /* yields the Vec<TypeErr> the `?` would convert the single error into */
 //@@ REPLACE
@@ -198,7 +198,7 @@ pub open spec fn reassignable(a: AST) -> Option<Identifier>
 }
 
 //@@ FN src/check/constrain/generate/call.rs | free | check_reassignable | props=C07,C03
-//@@ REPLACE
+//@@ REPLACE pin=b44f60409a81
 //@@< Identifier::try_from(ast).map_err($$)
 //@@> verif_identifier_of(ast)
     ensures
@@ -325,22 +325,22 @@ pub open spec fn call_post(ast: AST, env: Environment, ctx: Context, r: Constrai
     }
 }
 
-//@@ FN src/check/constrain/generate/call.rs | free | gen_call | props=C07,C05,C08,C03
-//@@ REPLACE
+//@@ FN src/check/constrain/generate/call.rs | free | gen_call | props=C07,C05,C08,C09,C03
+//@@ REPLACE pin=bd05708682f4
 //@@< identifier .all_calls() .iter() .flat_map($$) .flat_map($$) .fold($$)
 //@@> verif_assigned_env(&identifier, env, left.pos)
 //@@ REPLACE
 //@@< f_name == StringName::from(function::PRINT)
 //@@> verif_is_print(&f_name)
-//@@ REPLACE
+//@@ REPLACE pin=9cc3ab720bcb
 //@@< args.iter() .map($$) .for_each($$);
 //@@> verif_havoc_print_constraints(args, env, constr);
-//@@ REPLACE
+//@@ REPLACE pin=0dfe0678cf55
 //@@< for (_, $fe) in functions { $$ }
 //@@> verif_havoc_local_function_loop(functions, args, env, constr);
     ensures
         mono(*old(constr), *final(constr)), grows(*old(constr), *final(constr)), //# nothing_is_forgotten [C07,C05,C08]
-        call_post(*ast, *env, *ctx, r, *old(constr), *final(constr)),            //# reassignments_are_tested_first_and_context_calls_are_fully_constrained [C07,C05,C08]
+        call_post(*ast, *env, *ctx, r, *old(constr), *final(constr)),            //# reassignments_are_tested_first_and_context_calls_are_fully_constrained [C07,C05,C08,C09]
         r is Err ==> r->Err_0@.len() >= 1,                                       //# rejection_carries_a_diagnostic [-]
 //@@ END
 
